@@ -8,7 +8,7 @@ import pandas as pd
 
 from fv import design
 
-RICH_NUM = ["x", "z", "center(x)", "scale(z)", "bs(x, df=4)", "poly(z, 2)", "np.log(z)", "I(x ** 2)", "bs(z, df=3, degree=2)", "standardize(x)", "poly(x, 2, raw=True)", "scale(center(z))"]
+RICH_NUM = ["x", "z", "binary(f, 'a')", "B(g)", "center(x)", "scale(z)", "bs(x, df=4)", "poly(z, 2)", "np.log(z)", "I(x ** 2)", "bs(z, df=3, degree=2)", "standardize(x)", "poly(x, 2, raw=True)", "scale(center(z))"]
 RICH_CAT = ["f", "g", "h", "o", "C(k)", "C(f, Sum)", "T(h, 'B-y')", "S(g)", "C(k, levels=KL)"]
 
 
